@@ -39,7 +39,8 @@ try:
 finally:
     sh("git -C /repo checkout -- .")
     assert sh("git -C /repo status --short --untracked-files=no")[1].strip() == "", "repo not clean after revert"
-dst = os.path.join(V, "seeded", "%s-%s" % (pid, n))
+tag = str(int(n) + 2) if "mut2" in mutdir else str(n)
+dst = os.path.join(V, "seeded", "%s-%s" % (pid, tag))
 os.makedirs(dst, exist_ok=True)
 shutil.copy(patch, os.path.join(dst, "patch.diff"))
 for f in os.listdir(mutdir):
